@@ -56,6 +56,9 @@ func (c Case) String() string {
 	case "scripted-server":
 		return fmt.Sprintf("scripted-server announce=%q upgrade=%q post=%q mustSecure=%v insecure=%v", c.Announce, c.Upgrade, c.Post, c.MustSecure, c.Insecure)
 	}
+	if c.Part == "scripted-client-endpoint" {
+		return fmt.Sprintf("scripted-client-endpoint %s+tls prefix=%s", c.Carrier, c.Script)
+	}
 	return fmt.Sprintf("scripted-client %s", c.Script)
 }
 
@@ -446,6 +449,11 @@ func cases() []Case {
 	for _, s := range clientScripts {
 		out = append(out, Case{Part: "scripted-client", Script: s})
 	}
+	for _, carrier := range []string{"stdio", "stream", "ws"} {
+		for _, s := range endpointScripts() {
+			out = append(out, Case{Part: "scripted-client-endpoint", Carrier: carrier, Script: s})
+		}
+	}
 	return out
 }
 
@@ -458,6 +466,8 @@ func run(t *testing.T, c Case) (string, string) {
 		return honest(t, c)
 	case "scripted-server":
 		return scriptedServer(t, c)
+	case "scripted-client-endpoint":
+		return scriptedClientEndpoint(t, c)
 	}
 	return scriptedClient(t, c)
 }
